@@ -5,7 +5,7 @@ cfg:  n=<instances> keys=<distinct keys> [lazy=<m>]   instance i uses key "k{i %
                           m instances are constructed by `new <i>` in the middle of the history
 ops:  ft <ms> | acquire <i> | release <i> | setexpire <i> <seconds> | ids
       acquirectx <i> | releasectx <i>    the same calls entered through AcquireCtx / ReleaseCtx (same model step)
-      mass <m>            m further NewRedisLock calls: ids pairwise distinct? => distinct <store> | dup <store>
+      mass <m>            m further NewRedisLock calls: ids pairwise distinct? => <distinct|dup> len=<16|other> <store>
       new <i>             NewRedisLock of a lazy instance => distinct len=16 <store> | dup <store>
                           (the model's instance i has `seconds = 0` until its own SetExpire: nothing is inherited)
       race <i> <j> …      concurrent Acquire calls of distinct instances (real goroutines)
@@ -569,12 +569,13 @@ def runSection (r : Report) (s : Section) : Report := Id.run do
       r := { r with ops := r.ops + 1 }
       r := r.addCover "ids-mass"
       match l.obs with
-      | res :: dump =>
+      | res :: shape :: dump =>
         if res = "dup" then
           r := r.violation s.idx l.idx s!"two RedisLock instances got the same id (among {m} instances constructed on one key): they can hold the key at the same time op=[{joinSp l.op}]"
-        let (r', d') := checkOps c r d [] dump (fun _ => "distinct")
+        if shape ≠ "len=16" then r := r.addCover "mass-id-not-16-alphanumerics"
+        let (r', d') := checkOps c r d [] dump (fun _ => "distinct len=16")
         r := r'; d := d'
-      | [] => r := r.mismatch s.idx l.idx "distinct <store>" impl
+      | _ => r := r.mismatch s.idx l.idx "distinct len=16 <store>" impl
     | some (.new i) =>
       r := { r with ops := r.ops + 1 }
       r := r.addCover "new-instance-mid-history"
